@@ -65,7 +65,14 @@ func RestoreCreateContainerV2Request(contractCalls []event.NotaryEvent) (event.E
 	res.MainTransaction = *cnrCall.Raw().MainTransaction
 
 	if withOptionalEacl {
-		ev, err := RestorePutContainerEACLRequest(contractCalls[1])
+		eaclCall := contractCalls[1]
+		// only the first call is matched against the registered parsers by the
+		// notary preparator, the additional one must be checked here
+		if eaclCall.ScriptHash() != cnrCall.ScriptHash() || !eaclCall.Type().Equal(event.NotaryTypeFromString(fschaincontracts.PutContainerEACLMethod)) {
+			return nil, fmt.Errorf("unexpected additional contract call %q of %s", eaclCall.Type(), eaclCall.ScriptHash().StringLE())
+		}
+
+		ev, err := RestorePutContainerEACLRequest(eaclCall)
 		if err != nil {
 			return nil, fmt.Errorf("additional eACL setting parsing: %w", err)
 		}
